@@ -26,8 +26,10 @@ type Scenario struct {
 	Mk    func() *mc.Exec
 	// Thorough-only scenarios are skipped in the quick tier.
 	ThoroughOnly bool
-	// QuickBound overrides Opts.Bound in the quick tier when >= 0 and set.
+	// QuickBound overrides Opts.Bound in the quick tier when set.
 	QuickBound *int
+	// QuickMin overrides Opts.MinBound in the quick tier when set.
+	QuickMin *int
 }
 
 // ScenarioResult is what a shard reports for one scenario.
@@ -35,6 +37,8 @@ type ScenarioResult struct {
 	Name  string    `json:"name"`
 	Class string    `json:"class"`
 	Bound int       `json:"bound"`
+	Min   int       `json:"min_bound"`
+	Delay bool      `json:"delay_bounding"`
 	Stats *mc.Stats `json:"stats"`
 	WallS float64   `json:"wall_s"`
 }
@@ -57,6 +61,7 @@ var (
 	flagOnly     = flag.String("only", "", "substring filter on scenario names")
 	flagDeadline = flag.Duration("deadline", 0, "wall-clock budget for this shard")
 	flagList     = flag.Bool("list", false, "list scenarios")
+	flagSoft     = flag.Duration("soft", 0, "soft per-scenario budget for optional deeper levels")
 )
 
 // ReplayFile is a stored violating schedule.
@@ -125,9 +130,15 @@ func Run(t *testing.T, scenarios []Scenario) {
 		}
 		o := s.Opts
 		o.Deadline = deadline
+		if o.SoftBudget == 0 {
+			o.SoftBudget = *flagSoft
+		}
+		if tier != "thorough" && s.QuickMin != nil {
+			o.MinBound = *s.QuickMin
+		}
 		start := time.Now()
 		st := mc.Explore(o, s.Mk)
-		res.Scenarios = append(res.Scenarios, ScenarioResult{Name: s.Name, Class: s.Class, Bound: o.Bound, Stats: st, WallS: time.Since(start).Seconds()})
+		res.Scenarios = append(res.Scenarios, ScenarioResult{Name: s.Name, Class: s.Class, Bound: o.Bound, Min: o.MinBound, Delay: o.Delay, Stats: st, WallS: time.Since(start).Seconds()})
 	}
 	if *flagOut != "" {
 		b, _ := json.Marshal(res)
